@@ -18,9 +18,6 @@ import (
 	"time"
 
 	"github.com/btcsuite/btcd/blockchain"
-	"github.com/btcsuite/btcd/chaincfg/v2"
-	"github.com/btcsuite/btcd/chainhash/v2"
-	"github.com/btcsuite/btcd/wire/v2"
 
 	"verif/engine/bfs"
 	"verif/engine/ev"
@@ -41,98 +38,9 @@ const (
 
 var evNames = []string{"A", "B", "FlushRequired", "FlushPeriodic", "FlushIfNeeded", "ReopenUnclean", "ReopenClean", "QueryAll"}
 
-type world struct {
-	params   *chaincfg.Params
-	A, B     []*lab.Blk // A[i] is the (i+1)-th block of branch A, B[0] is the first block after the fork
-	forkA    int        // number of A blocks B forks after
-	byHash   map[chainhash.Hash]*lab.Blk
-	universe []wire.OutPoint
-	all      []*lab.Blk
-}
+type world = lab.TwoBranch
 
-func mkParams() *chaincfg.Params {
-	p := lab.CloneParams(&chaincfg.RegressionNetParams)
-	p.CoinbaseMaturity = 2
-	p.BIP0034Height = 1_000_000 // off: duplicate coinbases possible, BIP30 enforced
-	p.BIP0065Height = 1_000_000
-	p.BIP0066Height = 1_000_000
-	return p
-}
-
-func txOut(v int64, s []byte) *wire.TxOut { return &wire.TxOut{Value: v, PkScript: s} }
-
-func spendTx(ins []wire.OutPoint, outs []*wire.TxOut) *wire.MsgTx {
-	tx := wire.NewMsgTx(1)
-	for _, op := range ins {
-		tx.AddTxIn(&wire.TxIn{PreviousOutPoint: op, Sequence: 0xffffffff})
-	}
-	for _, o := range outs {
-		tx.AddTxOut(o)
-	}
-	return tx
-}
-
-func op(tx *wire.MsgTx, i uint32) wire.OutPoint { return wire.OutPoint{Hash: lab.TxID(tx), Index: i} }
-
-// buildWorld constructs the fixed block tree.  depth selects how long the two
-// branches are (quick: shorter).
-func buildWorld(long bool) *world {
-	p := mkParams()
-	w := &world{params: p, byHash: map[chainhash.Hash]*lab.Blk{}}
-	g := lab.Genesis(p)
-	w.byHash[g.Hash] = g
-	sub := lab.Subsidy(1, p)
-	dupScript := []byte{0x02, 0xd0, 0x0d}
-	dupOuts := []*wire.TxOut{txOut(sub/2, lab.OpTrue), txOut(sub-sub/2, lab.OpTrue)}
-	opRet := []byte{0x6a, 0x01, 0x42}
-	tag := uint32(100)
-	add := func(list *[]*lab.Blk, parent *lab.Blk, name string, o lab.BOpt) *lab.Blk {
-		tag++
-		o.Tag = tag
-		o.Name = name
-		b := lab.Build(p, parent, o)
-		*list = append(*list, b)
-		w.byHash[b.Hash] = b
-		w.all = append(w.all, b)
-		return b
-	}
-	// ---- branch A
-	a1 := add(&w.A, g, "A1", lab.BOpt{CoinbaseScript: dupScript, CoinbaseOuts: dupOuts})
-	cb := a1.Msg.Transactions[0]
-	a2 := add(&w.A, a1, "A2", lab.BOpt{})
-	s1 := spendTx([]wire.OutPoint{op(cb, 0)}, []*wire.TxOut{txOut(1000, lab.OpTrue), txOut(sub/2-1000, lab.OpTrue)})
-	s2 := spendTx([]wire.OutPoint{op(s1, 0)}, []*wire.TxOut{txOut(1000, lab.OpTrue), txOut(0, opRet)})
-	a3 := add(&w.A, a2, "A3", lab.BOpt{Txs: []*wire.MsgTx{s1, s2}})
-	t4 := spendTx([]wire.OutPoint{op(cb, 1), op(s1, 1)}, []*wire.TxOut{txOut(sub-1000, lab.OpTrue)})
-	a4 := add(&w.A, a3, "A4", lab.BOpt{Txs: []*wire.MsgTx{t4}})
-	a5 := add(&w.A, a4, "A5", lab.BOpt{CoinbaseScript: dupScript, CoinbaseOuts: dupOuts}) // re-created txid
-	a6 := add(&w.A, a5, "A6", lab.BOpt{})
-	u7 := spendTx([]wire.OutPoint{op(cb, 0)}, []*wire.TxOut{txOut(sub/2, lab.OpTrue)})
-	a7 := add(&w.A, a6, "A7", lab.BOpt{Txs: []*wire.MsgTx{u7}})
-	if long {
-		u8 := spendTx([]wire.OutPoint{op(cb, 1), op(u7, 0)}, []*wire.TxOut{txOut(sub, lab.OpTrue)})
-		a8 := add(&w.A, a7, "A8", lab.BOpt{Txs: []*wire.MsgTx{u8}})
-		add(&w.A, a8, "A9", lab.BOpt{CoinbaseScript: dupScript, CoinbaseOuts: dupOuts}) // third incarnation
-	}
-	// ---- branch B forks after A2
-	w.forkA = 2
-	r3 := spendTx([]wire.OutPoint{op(cb, 0), op(cb, 1)}, []*wire.TxOut{txOut(sub, lab.OpTrue)})
-	b3 := add(&w.B, a2, "B3", lab.BOpt{Txs: []*wire.MsgTx{r3}})
-	b4 := add(&w.B, b3, "B4", lab.BOpt{CoinbaseScript: dupScript, CoinbaseOuts: dupOuts})
-	r5 := spendTx([]wire.OutPoint{op(r3, 0)}, []*wire.TxOut{txOut(sub-5, lab.OpTrue), txOut(5, lab.OpTrue)})
-	b5 := add(&w.B, b4, "B5", lab.BOpt{Txs: []*wire.MsgTx{r5}})
-	z6 := spendTx([]wire.OutPoint{op(cb, 0)}, []*wire.TxOut{txOut(sub/2, lab.OpTrue)})
-	b6 := add(&w.B, b5, "B6", lab.BOpt{Txs: []*wire.MsgTx{z6}})
-	z7 := spendTx([]wire.OutPoint{op(cb, 1), op(z6, 0), op(r5, 1)}, []*wire.TxOut{txOut(sub, lab.OpTrue), txOut(0, opRet)})
-	b7 := add(&w.B, b6, "B7", lab.BOpt{Txs: []*wire.MsgTx{z7}})
-	b8 := add(&w.B, b7, "B8", lab.BOpt{})
-	if long {
-		b9 := add(&w.B, b8, "B9", lab.BOpt{CoinbaseScript: dupScript, CoinbaseOuts: dupOuts})
-		add(&w.B, b9, "B10", lab.BOpt{})
-	}
-	w.universe = lab.Universe(w.all)
-	return w
-}
+func buildWorld(long bool) *world { return lab.BuildTwoBranch(long) }
 
 type sys struct {
 	w       *world
@@ -144,8 +52,8 @@ type sys struct {
 	flushed bool // last event was a required flush / clean reopen / reopen
 }
 
-func (w *world) newSys(cache uint64) *sys {
-	c, err := lab.NewChain(lab.CloneParams(w.params), lab.ChainOpts{CacheSize: cache})
+func newSys(w *world, cache uint64) *sys {
+	c, err := lab.NewChain(lab.CloneParams(w.Params), lab.ChainOpts{CacheSize: cache})
 	if err != nil {
 		panic(err)
 	}
@@ -160,7 +68,7 @@ func (s *sys) enabled() []int {
 	if s.a < len(s.w.A) {
 		evs = append(evs, evA)
 	}
-	if s.a >= s.w.forkA && s.b < len(s.w.B) {
+	if s.a >= s.w.ForkA && s.b < len(s.w.B) {
 		evs = append(evs, evB)
 	}
 	evs = append(evs, evFlushReq, evFlushPer, evFlushIf, evReopenUnclean, evReopenClean, evQuery)
@@ -223,7 +131,7 @@ func (s *sys) apply(e int) {
 		// only a clean stop promises "persisted == in-memory".
 		s.flushed = e == evReopenClean
 	case evQuery:
-		for _, o := range s.w.universe {
+		for _, o := range s.w.Universe {
 			if _, err := s.c.BC.FetchUtxoEntry(o); err != nil {
 				s.fail("FetchUtxoEntry(%v): %v", o, err)
 			}
@@ -247,7 +155,7 @@ func (s *sys) canon() string {
 	}
 	var sb strings.Builder
 	best := s.c.BC.BestSnapshot()
-	fmt.Fprintf(&sb, "a=%d b=%d tip=%s tot=%d|", s.a, s.b, s.w.byHash[best.Hash].Name, best.TotalTxns)
+	fmt.Fprintf(&sb, "a=%d b=%d tip=%s tot=%d|", s.a, s.b, s.w.ByHash[best.Hash].Name, best.TotalTxns)
 	cached := s.c.BC.VerifCachedUtxos()
 	keys := make([]string, 0, len(cached))
 	for o, u := range cached {
@@ -255,7 +163,7 @@ func (s *sys) canon() string {
 	}
 	sort.Strings(keys)
 	sb.WriteString(strings.Join(keys, ","))
-	pers, rows, err := s.c.BC.VerifPersistedUtxos(s.w.universe)
+	pers, rows, err := s.c.BC.VerifPersistedUtxos(s.w.Universe)
 	if err != nil {
 		return "ERR:persisted:" + err.Error()
 	}
@@ -277,7 +185,7 @@ func (s *sys) check() string {
 		return s.err
 	}
 	best := s.c.BC.BestSnapshot()
-	tip, ok := s.w.byHash[best.Hash]
+	tip, ok := s.w.ByHash[best.Hash]
 	if !ok {
 		return fmt.Sprintf("best hash %v is not a lab block", best.Hash)
 	}
@@ -291,11 +199,11 @@ func (s *sys) check() string {
 	}
 	// persisted bucket first (FetchUtxoEntry below perturbs only the cache)
 	if s.flushed {
-		pers, rows, err := s.c.BC.VerifPersistedUtxos(s.w.universe)
+		pers, rows, err := s.c.BC.VerifPersistedUtxos(s.w.Universe)
 		if err != nil {
 			return "persisted read: " + err.Error()
 		}
-		for _, o := range s.w.universe {
+		for _, o := range s.w.Universe {
 			want, has := ref.Utxos[o]
 			got, hasGot := pers[o]
 			if has != hasGot {
@@ -327,7 +235,7 @@ func (s *sys) check() string {
 		}
 	}
 	// full universe through the public API
-	for _, o := range s.w.universe {
+	for _, o := range s.w.Universe {
 		e, err := s.c.BC.FetchUtxoEntry(o)
 		if err != nil {
 			return fmt.Sprintf("FetchUtxoEntry(%v): %v", o, err)
@@ -342,7 +250,7 @@ func (s *sys) check() string {
 		}
 	}
 	// FetchUtxoView of every non-coinbase tx of the universe agrees as well
-	for _, b := range s.w.all {
+	for _, b := range s.w.All {
 		for _, tx := range b.Msg.Transactions[1:] {
 			_ = tx
 		}
@@ -365,7 +273,7 @@ type replay struct {
 }
 
 func runHist(w *world, cache uint64, hist []int) string {
-	s := w.newSys(cache)
+	s := newSys(w, cache)
 	defer s.c.Destroy()
 	for _, e := range hist {
 		s.apply(e)
@@ -422,7 +330,7 @@ func main() {
 	for _, cache := range caches {
 		cache := cache
 		m := bfs.Model[*sys]{
-			New: func() *sys { return w.newSys(cache) },
+			New: func() *sys { return newSys(w, cache) },
 			Enabled: func(s *sys, hist []int) []int {
 				nd := 0
 				for _, e := range hist {
@@ -474,7 +382,7 @@ func main() {
 		}
 	}
 	r.Set("per_cache_size", perCache)
-	r.Set("bounds", map[string]interface{}{"branch_A_blocks": len(w.A), "branch_B_blocks": len(w.B), "max_non_delivery_events_per_history": maxNonDeliver, "cache_sizes": caches, "universe_outpoints": len(w.universe)})
+	r.Set("bounds", map[string]interface{}{"branch_A_blocks": len(w.A), "branch_B_blocks": len(w.B), "max_non_delivery_events_per_history": maxNonDeliver, "cache_sizes": caches, "universe_outpoints": len(w.Universe)})
 	// distinct nontrivial = states (each distinct canonical state)
 	r.Finish(complete)
 }
